@@ -77,7 +77,7 @@ func runC12(c *CaseCtx) *CaseResult {
 	}
 	cc.Ops = ops
 	cc.Hist = HistCfg{DescendPct: 5, PopOnChild: true, InvalidPct: 3}
-	cc.Mon = MonCfg{TreeEvery: 1, DeepEvery: 53, RefEvery: 29, ReachEvery: 5, ColdAtCommit: true}
+	cc.Mon = MonCfg{TreeEvery: 1, DeepEvery: 53, RefEvery: 29, ReachEvery: 5, ColdAtCommit: true, DirtyEvery: 5}
 	cc.CommitEvery = 70
 	cc.Phases = scalePhases(ops, []Phase{PhaseGrow, PhaseChurn, PhaseShrink, PhaseGrow, PhaseDrain, PhaseGrow, PhaseChurn}, []int{25, 20, 10, 10, 10, 12, 13})
 
@@ -754,7 +754,7 @@ func runC18(c *CaseCtx) *CaseResult {
 			cc.Ops = 900
 		}
 		cc.Hist = HistCfg{DescendPct: 35, PopOnChild: true, InvalidPct: 25}
-		cc.Mon = MonCfg{TreeEvery: 1, DeepEvery: 31, ReachEvery: 1, ColdAtCommit: true}
+		cc.Mon = MonCfg{TreeEvery: 1, DeepEvery: 31, ReachEvery: 1, ColdAtCommit: true, DirtyEvery: 5}
 		cc.CommitEvery = 90
 		if kind == "map" && c.Case%4 == 1 {
 			cc.Dig = &DigProfile{Alpha: [4]uint64{alpha0, 3, 2, 0}, Salt: uint64(c.CaseSeed())}
@@ -955,7 +955,7 @@ func runC08(c *CaseCtx) *CaseResult {
 			cc.Ops = 800
 		}
 		cc.Hist = HistCfg{DescendPct: 40, PopOnChild: true, InvalidPct: 2}
-		cc.Mon = MonCfg{TreeEvery: 13, DeepEvery: 59, ColdAtCommit: true}
+		cc.Mon = MonCfg{TreeEvery: 13, DeepEvery: 59, ColdAtCommit: true, DirtyEvery: 2}
 		cc.CommitEvery = 0
 		if kind == "map" && c.Case%8 == 1 {
 			cc.Dig = &DigProfile{Alpha: [4]uint64{alpha0, 2, 2, 0}, Salt: uint64(c.CaseSeed())}
